@@ -17,6 +17,7 @@ import (
 	"go.uber.org/zap"
 
 	"github.com/ava-labs/hypersdk/event"
+	"github.com/ava-labs/hypersdk/internal/verifhook"
 )
 
 var (
@@ -168,6 +169,7 @@ func (b *StatefulBlock[I, O, A]) accept(ctx context.Context, parentAccepted A) e
 	if err != nil {
 		return err
 	}
+	verifhook.Point("chain-accepted", b.Input.GetHeight())
 	b.Accepted = acceptedBlk
 	b.accepted = true
 
@@ -336,10 +338,12 @@ func (b *StatefulBlock[I, O, A]) Accept(ctx context.Context) error {
 	if err := b.vm.inputChainIndex.UpdateLastAccepted(ctx, b.Input); err != nil {
 		return err
 	}
+	verifhook.Point("index-updated", b.Input.GetHeight())
 
 	// If I'm ready, queue the block for processing
 	if b.vm.ready {
 		b.queueAccept()
+		verifhook.Point("queued", b.Input.GetHeight())
 	} else {
 		// If I'm not ready, send the pre-ready notification directly from the consensus thread.
 		if err := event.NotifyAll(ctx, b.Input, b.vm.preReadyAcceptedSubs...); err != nil {
@@ -375,6 +379,7 @@ func (b *StatefulBlock[I, O, A]) queueAccept() {
 // processAccept processes the block as accepted by invoking Accept on the underlying chain
 func (b *StatefulBlock[I, O, A]) processAccept(ctx context.Context) error {
 	defer b.vm.acceptedQueueBlocksProcessedWg.Done()
+	verifhook.Point("process-start", b.Input.GetHeight())
 
 	parent, err := b.vm.GetBlock(ctx, b.Parent())
 	if err != nil {
@@ -383,6 +388,7 @@ func (b *StatefulBlock[I, O, A]) processAccept(ctx context.Context) error {
 	if err := b.accept(ctx, parent.Accepted); err != nil {
 		return err
 	}
+	verifhook.Point("subscribers-notified", b.Input.GetHeight())
 	b.vm.setLastProcessed(b)
 
 	return nil
